@@ -7,9 +7,8 @@ src/bin/agrind.rs:69-121 (parse_output, flag exclusivity); AgModel/Render.lean f
 
 JSON is modelled at the value level (`JVal` = the tree handed to serde_json); the text layer
 (escaping, ryu) is serde_json's and is checked by re-parsing every emitted line in the harness.
-Nested objects are listed key-sorted in the model; the real code iterates an `im::HashMap` there
-(class C18/nested-key-order-nondeterministic, C13's defect) — the statements below are about the
-record's / the aggregate's own members, whose order the code fixes itself.
+Nested objects are written key-sorted (model and, since the repair 2099327, the code; before it the
+code iterated an `im::HashMap` there: class C18/nested-key-order-nondeterministic, C13's defect).
 -/
 import AgModel.OutModes
 
@@ -273,5 +272,423 @@ theorem tokRun_dead (f : Formatter → Option (List Char)) (cs : List Char) :
     | some t1 =>
       simp only [hs] at h
       exact ih t1 t' h (tokStep_dead f t t1 c hs hd)
+
+theorem step_rel (f : Formatter → Option (List Char)) (m : MapSt) (t : TokSt) (c : Char)
+    (hr : Rel f m t) :
+    match tokStep t c with
+    | none => mapStep f m c = none
+    | some t' => (∃ m', mapStep f m c = some m' ∧ Rel f m' t') ∨ (mapStep f m c = none ∧ Dead f t') := by
+  obtain ⟨h1, h2, h3, h4⟩ := hr
+  cases hrd : t.reading <;> cases hcl : t.closing <;> by_cases hb1 : c = '{' <;> by_cases hb2 : c = '}' <;>
+    simp [tokStep, mapStep, h1, h2, h3, hrd, hcl, hb1, hb2]
+  all_goals first
+    | exact ⟨rfl, rfl, rfl, by simpa [renderRev] using h4⟩
+    | (by_cases hp : t.pat = [] <;> simp [hp]
+       exact ⟨rfl, rfl, rfl, by simpa [renderRev] using h4⟩)
+    | (cases hfp : Formatter.ofPattern t.pat.reverse with
+       | none => simp
+       | some fm =>
+         cases hf : f fm with
+         | none => simp [hf, Dead, renderRev, h4]
+         | some txt => simp [hf]; exact ⟨rfl, rfl, rfl, by simp [renderRev, h4, hf]⟩)
+
+theorem run_rel (f : Formatter → Option (List Char)) (cs : List Char) :
+    ∀ (m : MapSt) (t : TokSt), Rel f m t →
+      match tokRun t cs with
+      | none => mapRun f m cs = none
+      | some t' => (∃ m', mapRun f m cs = some m' ∧ Rel f m' t') ∨ (mapRun f m cs = none ∧ Dead f t') := by
+  induction cs with
+  | nil => intro m t hr; simp only [tokRun, mapRun]; exact Or.inl ⟨m, rfl, hr⟩
+  | cons c cs ih =>
+    intro m t hr
+    have hstep := step_rel f m t c hr
+    simp only [tokRun, mapRun]
+    cases hs : tokStep t c with
+    | none =>
+      simp only [hs] at hstep
+      simp [hstep]
+    | some t1 =>
+      simp only [hs] at hstep
+      rcases hstep with ⟨m1, hm1, hr1⟩ | ⟨hm, hd⟩
+      · simp only [hm1]
+        exact ih m1 t1 hr1
+      · simp only [hm]
+        cases htr : tokRun t1 cs with
+        | none => trivial
+        | some t' => exact Or.inr ⟨trivial, tokRun_dead f cs t1 t' htr hd⟩
+
+/-- **C18 (format, substitution).** `strfmt_map(fmt, f)` — the streaming loop of the `strfmt`
+crate — is: tokenize the format string (`fmtTokens`: literal characters with `{{` ↦ `{` and
+`}}` ↦ `}`, and `{key[:spec]}` fields), then concatenate, each field replaced by what the closure
+writes for it; it fails iff the tokenizer fails or the closure fails on some field. -/
+theorem C18_format_subst (f : Formatter → Option (List Char)) (fmt : List Char) :
+    strfmtMap f fmt = (fmtTokens fmt).bind (renderToks f) := by
+  have h := run_rel f fmt {} {} ⟨rfl, rfl, rfl, by simp [renderRev]⟩
+  unfold strfmtMap fmtTokens
+  cases htr : tokRun {} fmt with
+  | none => simp only [htr] at h; simp [h]
+  | some t' =>
+    simp only [htr] at h
+    rcases h with ⟨m', hm, hr⟩ | ⟨hm, hd⟩
+    · simp only [hm, hr.reading, hr.closing]
+      by_cases hfl : (t'.closing || t'.reading) = true
+      · simp [hfl]
+      · simp only [hfl]
+        have := hr.out
+        rw [renderRev_eq] at this
+        cases hrt : renderToks f t'.toks.reverse with
+        | none => simp [hrt] at this
+        | some txt =>
+          simp only [hrt, Option.map_some, Option.some.injEq] at this
+          simp [hrt, ← this]
+    · simp only [hm]
+      by_cases hfl : (t'.closing || t'.reading) = true
+      · simp [hfl]
+      · simp only [hfl]
+        unfold Dead at hd
+        rw [renderRev_eq] at hd
+        cases hrt : renderToks f t'.toks.reverse with
+        | none => simp [hrt]
+        | some txt => simp [hrt] at hd
+
+/-- a field without a format spec shows the text verbatim -/
+theorem str_plain (k s : List Char) : Formatter.str { key := k, spec := {} } s = some s := by
+  simp [Formatter.str]
+
+/-- the only value-dependent failure of `Formatter::str` (`=` alignment with padding) already shows
+on the empty text: a spec accepted at construction never fails at print time -/
+theorem str_isSome_of_empty (fm : Formatter) (s : List Char) (h : (fm.str []).isSome) :
+    (fm.str s).isSome := by
+  unfold Formatter.str at h ⊢
+  dsimp only at h ⊢
+  split at h
+  · simp at h
+  split at h
+  · simp at h
+  split at h
+  · simp at h
+  split at h
+  · simp at h
+  rename_i c1 c2 c3 c4
+  rw [if_neg c1, if_neg c2, if_neg c3, if_neg c4]
+  cases hw : fm.spec.width with
+  | none => simp
+  | some w =>
+    simp only [hw] at h ⊢
+    cases ha : fm.spec.align with
+    | equal =>
+      simp only [ha] at h ⊢
+      have hw0 : w = 0 := by
+        cases hp : fm.spec.precision <;> simp [hp] at h <;> omega
+      subst hw0
+      simp
+    | unspecified => (repeat' split) <;> simp_all
+    | left => (repeat' split) <;> simp_all
+    | center => (repeat' split) <;> simp_all
+    | right => (repeat' split) <;> simp_all
+
+theorem renderToks_isSome (f : Formatter → Option (List Char)) (toks : List FmtTok) :
+    (renderToks f toks).isSome ↔ ∀ fm, FmtTok.key fm ∈ toks → (f fm).isSome := by
+  induction toks with
+  | nil => simp [renderToks]
+  | cons x t ih =>
+    cases x with
+    | lit c => simp [renderToks, ih]
+    | key fm =>
+      simp only [renderToks, List.mem_cons]
+      constructor
+      · intro h g hg
+        cases hf : f fm with
+        | none => simp [hf] at h
+        | some txt =>
+          cases hr : renderToks f t with
+          | none => simp [hf, hr] at h
+          | some r =>
+            rcases hg with hg | hg
+            · injection hg with hg; subst hg; simp [hf]
+            · exact (ih.1 (by simp [hr])) g hg
+      · intro h
+        have h1 : (f fm).isSome := h fm (Or.inl rfl)
+        have h2 : (renderToks f t).isSome := ih.2 (fun g hg => h g (Or.inr hg))
+        cases hf : f fm with
+        | none => simp [hf] at h1
+        | some txt =>
+          cases hr : renderToks f t with
+          | none => simp [hr] at h2
+          | some r => simp
+
+/-- **C18 (format, validation).** `FormatPrinter::new` (one `strfmt_map` run with a closure that
+writes the empty string) succeeds iff the tokenizer accepts the format string and every field's
+spec is one `Formatter::str` accepts — decided from the format string alone, i.e. before any input. -/
+theorem C18_format_validation (fmt : String) :
+    formatNew fmt = true ↔
+      ∃ toks, fmtTokens fmt.toList = some toks ∧ ∀ fm, FmtTok.key fm ∈ toks → (fm.str []).isSome := by
+  unfold formatNew
+  rw [C18_format_subst]
+  cases hft : fmtTokens fmt.toList with
+  | none => simp
+  | some toks => simp [renderToks_isSome]
+
+/-- the text written for a row: the tokens' texts concatenated, a field showing `ValueDisplay` of
+the looked-up value under its spec -/
+theorem C18_format_text (fmt : String) (lookup : String → Value) :
+    strformat fmt lookup =
+      (fmtTokens fmt.toList).bind (fun toks =>
+        (renderToks (fun fm => fm.str (lookup (String.ofList fm.key)).render.toList) toks).map String.ofList) := by
+  unfold strformat
+  rw [C18_format_subst]
+  cases fmtTokens fmt.toList <;> simp
+
+/-- **C18 (format, totality).** A format string accepted at construction never fails while
+printing, whatever the row: the `Err(e) => format!("{}", e)` arms of `FormatPrinter` are dead. -/
+theorem C18_format_total (fmt : String) (h : formatNew fmt = true) (lookup : String → Value) :
+    (strformat fmt lookup).isSome := by
+  obtain ⟨toks, ht, hk⟩ := (C18_format_validation fmt).1 h
+  rw [C18_format_text, ht]
+  simp only [Option.bind_some, Option.isSome_map]
+  exact (renderToks_isSome _ toks).2 (fun fm hfm => str_isSome_of_empty fm _ (hk fm hfm))
+
+/-- a plain `{field}` is replaced by the field's display text, `None` when the row lacks it -/
+theorem C18_format_field (k : List Char) (data : Fields) :
+    tokText (fun key => (Fields.get key data).getD .none) (.key { key := k, spec := {} }) =
+      some ((Fields.get (String.ofList k) data).getD .none).render.toList := by
+  simp [tokText, str_plain]
+
+theorem C18_format_absent (k : String) (data : Fields) (h : Fields.get k data = none) :
+    ((Fields.get k data).getD .none).render = "None" := by
+  simp [h, Value.render]
+
+/-- text without braces is copied character by character -/
+theorem tokRun_literal (cs : List Char) (h : ∀ c ∈ cs, c ≠ '{' ∧ c ≠ '}') :
+    ∀ (toks : List FmtTok) (pat : List Char),
+      tokRun { toks := toks, reading := false, closing := false, pat := pat } cs =
+        some { toks := (cs.map FmtTok.lit).reverse ++ toks, reading := false, closing := false, pat := pat } := by
+  induction cs with
+  | nil => intro toks pat; simp [tokRun]
+  | cons c cs ih =>
+    intro toks pat
+    have hc := h c (by simp)
+    have h' : ∀ d ∈ cs, d ≠ '{' ∧ d ≠ '}' := fun d hd => h d (by simp [hd])
+    simp [tokRun, tokStep, hc.1, hc.2, ih h']
+
+/-- **C18 (format, literal text intact).** -/
+theorem C18_format_literal (cs : List Char) (h : ∀ c ∈ cs, c ≠ '{' ∧ c ≠ '}') :
+    fmtTokens cs = some (cs.map FmtTok.lit) := by
+  simp [fmtTokens, tokRun_literal cs h]
+
+example : fmtTokens "{a} => {{b}}".toList =
+    some [.key { key := ['a'], spec := {} }, .lit ' ', .lit '=', .lit '>', .lit ' ', .lit '{', .lit 'b', .lit '}'] := by
+  decide
+example : fmtTokens "{".toList = none := by decide
+example : fmtTokens "}".toList = none := by decide
+example : fmtTokens "{a{b}}".toList = none := by decide
+example : fmtTokens "{}".toList = none := by decide
+example : fmtTokens "{a:>8}".toList =
+    some [.key { key := ['a'], spec := { align := .right, width := some 8 } }] := by decide
+example : formatNew "{a} {b:<5}" = true := by decide
+example : formatNew "{a:=5}" = false := by decide
+example : formatNew "{a:q}" = false := by decide
+example : formatNew "" = true := by decide
+
+/-! ### CLI: the decision table -/
+
+theorem split_spec (cs : List Char) :
+    '=' ∉ cs.takeWhile (· != '=') ∧
+    ((cs = cs.takeWhile (· != '=') ∧ (cs.dropWhile (· != '=')).drop 1 = []) ∨
+      cs = cs.takeWhile (· != '=') ++ '=' :: (cs.dropWhile (· != '=')).drop 1) := by
+  induction cs with
+  | nil => simp
+  | cons c t ih =>
+    by_cases hc : c = '='
+    · subst hc; simp
+    · have hb : (c != '=') = true := by simpa using hc
+      simp only [List.takeWhile_cons, List.dropWhile_cons, hb, if_true]
+      refine ⟨?_, ?_⟩
+      · simp only [List.mem_cons, not_or]; exact ⟨fun e => hc e.symm, ih.1⟩
+      · rcases ih.2 with ⟨h1, h2⟩ | h
+        · left; exact ⟨by rw [← h1], h2⟩
+        · right; rw [List.cons_append, ← h]
+
+/-- `-o` and `--format` together are rejected, whatever their values -/
+theorem C18_cli_exclusive (o f : String) :
+    chooseMode (some o) (some f) = .error .cantSupplyBoth ∧
+    startup (some o) (some f) = .error .cantSupplyBoth := ⟨rfl, rfl⟩
+
+/-- with `--format` alone the string is taken as the format; nothing at all means `legacy` -/
+theorem C18_cli_defaults (f : String) :
+    chooseMode none (some f) = .ok (.format f) ∧ chooseMode none none = .ok .legacy := by
+  exact ⟨rfl, rfl⟩
+
+theorem eq_split_unique (a b v w : List Char) (ha : '=' ∉ a) (hb : '=' ∉ b) :
+    a ++ '=' :: v = b ++ '=' :: w ↔ a = b ∧ v = w := by
+  induction a generalizing b with
+  | nil =>
+    cases b with
+    | nil => simp
+    | cons c b' =>
+      have : c ≠ '=' := fun e => hb (by simp [e])
+      simp [eq_comm, this]
+  | cons d a' ih =>
+    cases b with
+    | nil =>
+      have : d ≠ '=' := fun e => ha (by simp [e])
+      simp [this]
+    | cons c b' =>
+      have ha' : '=' ∉ a' := fun h => ha (by simp [h])
+      have hb' : '=' ∉ b' := fun h => hb (by simp [h])
+      simp only [List.cons_append, List.cons.injEq, ih b' ha' hb']
+      constructor
+      · rintro ⟨rfl, rfl, rfl⟩; exact ⟨⟨rfl, rfl⟩, rfl⟩
+      · rintro ⟨⟨rfl, rfl⟩, rfl⟩; exact ⟨rfl, rfl, rfl⟩
+
+theorem takeWhile_split (a v : List Char) (ha : '=' ∉ a) :
+    (a ++ '=' :: v).takeWhile (· != '=') = a ∧ ((a ++ '=' :: v).dropWhile (· != '=')).drop 1 = v := by
+  induction a with
+  | nil => simp
+  | cons d a' ih =>
+    have hd : (d != '=') = true := by
+      have : d ≠ '=' := fun e => ha (by simp [e])
+      simpa using this
+    have ha' : '=' ∉ a' := fun h => ha (by simp [h])
+    simp [hd, ih ha']
+
+theorem takeWhile_noeq (a : List Char) (ha : '=' ∉ a) :
+    a.takeWhile (· != '=') = a ∧ (a.dropWhile (· != '=')).drop 1 = [] := by
+  induction a with
+  | nil => simp
+  | cons d a' ih =>
+    have hd : (d != '=') = true := by
+      have : d ≠ '=' := fun e => ha (by simp [e])
+      simpa using this
+    have ha' : '=' ∉ a' := fun h => ha (by simp [h])
+    simp [hd, ih ha']
+
+/-- the decision table of `parse_output` on `arg=val` (no `=` in `arg`) and on a text without `=` -/
+def table (arg val : List Char) : Except CliErr Mode :=
+  if arg = "legacy".toList ∧ val = [] then .ok .legacy
+  else if arg = "json".toList ∧ val = [] then .ok .json
+  else if arg = "logfmt".toList ∧ val = [] then .ok .logfmt
+  else if arg = "format".toList then
+    if val = [] then .error .invalidFormatString else .ok (.format (String.ofList val))
+  else .error (.invalidOutputMode (String.ofList arg))
+
+/-- **C18 (CLI).** `parse_output` splits at the first `=`; `legacy`, `json`, `logfmt` are accepted
+with no value (also with an empty one: `json=`), `format=<non-empty>` gives the format mode,
+`format` / `format=` is `InvalidFormatString`, every other name is `InvalidOutputMode` —
+nothing else is accepted. -/
+theorem C18_cli (arg val : List Char) (h : '=' ∉ arg) :
+    parseOutputL (arg ++ '=' :: val) = table arg val ∧ parseOutputL arg = table arg [] := by
+  constructor
+  · unfold parseOutputL table
+    simp only [(takeWhile_split arg val h).1, (takeWhile_split arg val h).2]
+  · unfold parseOutputL table
+    simp only [(takeWhile_noeq arg h).1, (takeWhile_noeq arg h).2]
+
+/-- every argument is one of the two shapes of `C18_cli` -/
+theorem C18_cli_shapes (cs : List Char) :
+    ('=' ∉ cs) ∨ ∃ arg val, '=' ∉ arg ∧ cs = arg ++ '=' :: val := by
+  obtain ⟨hno, hsp⟩ := split_spec cs
+  rcases hsp with ⟨h1, _⟩ | h
+  · left; rw [h1]; exact hno
+  · right; exact ⟨_, _, hno, h⟩
+
+/-- accepted `-o` values, exhaustively -/
+theorem C18_cli_accepts (cs : List Char) (m : Mode) :
+    parseOutputL cs = .ok m ↔
+      (m = .legacy ∧ (cs = "legacy".toList ∨ cs = "legacy=".toList)) ∨
+      (m = .json ∧ (cs = "json".toList ∨ cs = "json=".toList)) ∨
+      (m = .logfmt ∧ (cs = "logfmt".toList ∨ cs = "logfmt=".toList)) ∨
+      (∃ v, v ≠ [] ∧ m = .format (String.ofList v) ∧ cs = "format=".toList ++ v) := by
+  have e1 : "legacy=".toList = "legacy".toList ++ '=' :: [] := by decide
+  have e2 : "json=".toList = "json".toList ++ '=' :: [] := by decide
+  have e3 : "logfmt=".toList = "logfmt".toList ++ '=' :: [] := by decide
+  have e4 : ∀ v, "format=".toList ++ v = "format".toList ++ '=' :: v := by intro v; rfl
+  have n1 : '=' ∉ "legacy".toList := by decide
+  have n2 : '=' ∉ "json".toList := by decide
+  have n3 : '=' ∉ "logfmt".toList := by decide
+  have n4 : '=' ∉ "format".toList := by decide
+  constructor
+  · intro hm
+    rcases C18_cli_shapes cs with hno | ⟨arg, val, hno, rfl⟩
+    · rw [(C18_cli cs [] hno).2] at hm
+      unfold table at hm
+      split at hm
+      · rename_i h; injection hm with hm; subst hm; exact Or.inl ⟨rfl, Or.inl h.1⟩
+      split at hm
+      · rename_i h; injection hm with hm; subst hm; exact Or.inr (Or.inl ⟨rfl, Or.inl h.1⟩)
+      split at hm
+      · rename_i h; injection hm with hm; subst hm; exact Or.inr (Or.inr (Or.inl ⟨rfl, Or.inl h.1⟩))
+      split at hm
+      · simp at hm
+      · simp at hm
+    · rw [(C18_cli arg val hno).1] at hm
+      unfold table at hm
+      split at hm
+      · rename_i h; injection hm with hm; subst hm
+        exact Or.inl ⟨rfl, Or.inr (by rw [h.1, h.2, e1])⟩
+      split at hm
+      · rename_i h; injection hm with hm; subst hm
+        exact Or.inr (Or.inl ⟨rfl, Or.inr (by rw [h.1, h.2, e2])⟩)
+      split at hm
+      · rename_i h; injection hm with hm; subst hm
+        exact Or.inr (Or.inr (Or.inl ⟨rfl, Or.inr (by rw [h.1, h.2, e3])⟩))
+      split at hm
+      · rename_i h
+        split at hm
+        · simp at hm
+        · rename_i hv; injection hm with hm; subst hm
+          exact Or.inr (Or.inr (Or.inr ⟨val, hv, rfl, by rw [h, e4]⟩))
+      · simp at hm
+  · rintro (⟨rfl, rfl | rfl⟩ | ⟨rfl, rfl | rfl⟩ | ⟨rfl, rfl | rfl⟩ | ⟨v, hv, rfl, rfl⟩)
+    · rw [(C18_cli _ [] n1).2]; simp [table]
+    · rw [e1, (C18_cli _ [] n1).1]; simp [table]
+    · rw [(C18_cli _ [] n2).2]; simp [table]
+    · rw [e2, (C18_cli _ [] n2).1]; simp [table]
+    · rw [(C18_cli _ [] n3).2]; simp [table]
+    · rw [e3, (C18_cli _ [] n3).1]; simp [table]
+    · rw [e4, (C18_cli _ v n4).1]; simp [table, hv]
+
+/-- **C18 (rejected before any input).** `startup` — flag handling, then the construction of the
+printers inside `Pipeline::new` — is a function of the two flags alone (no input is involved), and
+whenever it accepts, the mode comes from the decision table and a format string passed validation. -/
+theorem C18_startup (o f : Option String) (m : Mode) (h : startup o f = .ok m) :
+    chooseMode o f = .ok m ∧ (∀ s, m = .format s → formatNew s = true) := by
+  unfold startup at h
+  cases hc : chooseMode o f with
+  | error e => simp [hc] at h
+  | ok m' =>
+    simp only [hc] at h
+    cases m' with
+    | format s =>
+      by_cases hf : formatNew s = true
+      · simp only [hf, if_true] at h
+        injection h with h; subst h
+        exact ⟨rfl, fun s' hs => by injection hs with hs; subst hs; exact hf⟩
+      · simp [hf] at h
+    | legacy => injection h with h; subst h; exact ⟨rfl, fun s hs => by cases hs⟩
+    | json => injection h with h; subst h; exact ⟨rfl, fun s hs => by cases hs⟩
+    | logfmt => injection h with h; subst h; exact ⟨rfl, fun s hs => by cases hs⟩
+
+deriving instance DecidableEq for Except
+
+example : startup (some "yaml") none = .error (.invalidOutputMode "yaml") := by decide
+example : startup (some "format=") none = .error .invalidFormatString := by decide
+example : startup (some "format") none = .error .invalidFormatString := by decide
+example : startup (some "format={") none = .error .badFormat := by decide
+example : startup (some "format=}") none = .error .badFormat := by decide
+example : startup (some "format={a{b}}") none = .error .badFormat := by decide
+example : startup none (some "{") = .error .badFormat := by decide
+example : startup (some "json") (some "{a}") = .error .cantSupplyBoth := by decide
+example : startup (some "format={a} => {b}") none = .ok (.format "{a} => {b}") := by decide
+example : startup (some "json") none = .ok .json := by decide
+example : startup none none = .ok .legacy := by decide
+/-- quirk of the table: an empty value after a fixed name is accepted -/
+example : startup (some "json=") none = .ok .json := by decide
+
+/-- counterexample to "empty format strings are rejected" through the deprecated flag
+(class C18/empty-format-accepted): `--format ''` starts a run that prints empty lines -/
+theorem C18_empty_legacy_format_counterexample :
+    startup none (some "") = .ok (.format "") ∧ startup (some "format=") none = .error .invalidFormatString := by
+  decide
 
 end Ag.C18
